@@ -48,7 +48,7 @@ from harness.core import F
 sys.set_int_max_str_digits(0)  # exact rational traces of long tolerant runs have thousands of digits
 logging.getLogger("jax._src.debugging").setLevel(logging.CRITICAL)  # the stall detector raises inside a callback on purpose
 
-PROPS_MODULES = ["Pdq.Props.C06", "Pdq.Props.C06Real"]
+PROPS_MODULES = ["Pdq.Props.C06", "Pdq.Props.C06Real", "Pdq.Props.C06Term"]
 LEVEL = "proof"
 EXPLANATION = (
     "Theorems (Pdq/Props/C06.lean) hold for every fuel, script, ordered field; the correspondence replays scripted "
@@ -710,6 +710,12 @@ def monitors(case, impl: ImplResult):
             ratio = a["dt_new"] / a["dt"] if a["dt"] != 0 else float("nan")
             if not (fmin * (1 - tol) <= ratio <= fmax * (1 + tol)):
                 bad.append(("proposal_in_bounds", f"dt_new/dt = {ratio!r} outside [{fmin}, {fmax}]"))
+            # (4b) C06Term.ctlI_contracts / ctlPI_contracts: a rejection is answered by at most max(factor_min, safety) x dt
+            # (what bounds the number of attempts of the rejection loop, C06Term.whileRej_terminates)
+            if 0.0 <= a["ep"] < 1.0 and float(case["safety"]) >= 0 and a["dt"] > 0:
+                rho = max(fmin, float(case["safety"]))
+                if not (a["dt_new"] <= rho * a["dt"] * (1 + tol)):
+                    bad.append(("reject_then_smaller", f"rejected attempt (error_power {a['ep']!r}) with dt={a['dt']!r} answered by dt_new={a['dt_new']!r} > max(factor_min, safety) x dt = {rho * a['dt']!r}"))
             # (5) clip_no_overshoot
             if case["clip"] and mode != "every_step" and n_interp < len(targets):
                 if a["prop"][0] > targets[n_interp] + tol * max(1.0, abs(targets[n_interp])):
